@@ -595,5 +595,6 @@ pub fn check_absorb<S: Subject>(plan: &Plan, ctx: &Ctx, stats: &mut Stats, eq_ex
 pub type CheckFn = fn(&Plan, &Ctx, &mut Stats) -> Result<(), Fail>;
 
 pub fn mk_job(label: impl Into<String>, q: u64, t: u64, pc: PlanCfg, ctx: Ctx, f: CheckFn) -> PJob<Plan> {
-    job(label, q, t, move || plan_strategy(&pc), move |p: &Plan, st: &mut Stats| f(p, &ctx, st))
+    let pc2 = pc.clone();
+    job(label, q, t, move || plan_strategy(&pc), move |p: &Plan, st: &mut Stats| f(p, &ctx, st)).decoder(move |d: &[u8]| decode_plan(&pc2, d))
 }
